@@ -261,12 +261,12 @@ theorem readParts_log (strict : Bool) (buf : Nat) (max : Option Nat) :
       · exact hnew e
       · exact fun he => Or.inl he
 
-/-- the only errors of the loop: `BodySizeError` from the size check, and in the strict (chunked)
-variant `BodyParsingError` at an early end of data -/
+/-- the only errors of the loop: `BodySizeError` from the size check (only when a limit is
+configured), and in the strict (chunked) variant `BodyParsingError` at an early end of data -/
 theorem readParts_err (strict : Bool) (buf : Nat) (max : Option Nat) :
     ∀ (rest : Nat) (r : Rec) (sk : Sink) (e : Err),
       (readParts strict buf max rest r sk).1 = .error e →
-        e = .bodySizeError ∨ (strict = true ∧ e = .bodyParsingError) := by
+        (e = .bodySizeError ∧ max ≠ none) ∨ (strict = true ∧ e = .bodyParsingError) := by
   intro rest
   induction rest using Nat.strongRecOn with
   | _ rest ih =>
@@ -283,7 +283,9 @@ theorem readParts_err (strict : Bool) (buf : Nat) (max : Option Nat) :
         left
         unfold Sink.push at hpush
         split at hpush
-        · simpa using hpush.symm
+        · rename_i hov
+          refine ⟨by simpa using hpush.symm, ?_⟩
+          intro hn; subst hn; simp [overMax] at hov
         · cases hpush
       · exact ih _ (by omega) _ _ e
     · split
